@@ -1,5 +1,5 @@
 import LocustModel.Query.Layout
-import LocustModel.Thm.C04
+import LocustModel.Lemmas.C04Merge
 /-
   Helper lemmas for C02: WHERE / projection over concatenated partitions; the engine's sentinel-encoded merge of
   grouped partial aggregates against the exact merge `mergeX`.
@@ -110,46 +110,46 @@ def Clean (op : Agg) (l r : List (Int × Option Int)) : Prop :=
     ∀ p ∈ l, ∀ q ∈ r, p.1 = q.1 → ComboOk op p.2 q.2
 
 theorem specKeys_map (op : Agg) (l r : List (Int × Option Int)) :
-    C04.specKeys (l.map (·.1)) (r.map (·.1)) = (mergeX op l r).map (·.1) := by
+    C04L.specKeys (l.map (·.1)) (r.map (·.1)) = (mergeX op l r).map (·.1) := by
   fun_induction mergeX op l r
-  · simp [C04.specKeys]
+  · simp [C04L.specKeys]
   · rename_i l h
     cases l with
     | nil => simp at h
-    | cons x l => simp [C04.specKeys]
+    | cons x l => simp [C04L.specKeys]
   · rename_i k1 v1 l k2 v2 r h ih
     simp only [List.map_cons] at ih ⊢
-    simp [C04.specKeys, h, ih]
+    simp [C04L.specKeys, h, ih]
   · rename_i k1 v1 l k2 v2 r h1 h2 ih
     simp only [List.map_cons] at ih ⊢
-    simp [C04.specKeys, h1, h2, ih]
+    simp [C04L.specKeys, h1, h2, ih]
   · rename_i k1 v1 l k2 v2 r h1 h2 ih
     simp only [List.map_cons] at ih ⊢
-    simp [C04.specKeys, h1, h2, ih]
+    simp [C04L.specKeys, h1, h2, ih]
 
 theorem specVals_map (op : Agg) (l r : List (Int × Option Int)) (hc : Clean op l r) :
-    C04.specVals op (l.map (·.1)) (r.map (·.1)) (l.map (fun p => enc p.2)) (r.map (fun p => enc p.2))
+    C04L.specVals op (l.map (·.1)) (r.map (·.1)) (l.map (fun p => enc p.2)) (r.map (fun p => enc p.2))
       = .ok ((mergeX op l r).map (fun p => enc p.2)) := by
   fun_induction mergeX op l r
-  · simp [C04.specVals]
+  · simp [C04L.specVals]
   · rename_i l h
     cases l with
     | nil => simp at h
-    | cons x l => simp [C04.specVals]
+    | cons x l => simp [C04L.specVals]
   · rename_i k1 v1 l k2 v2 r h ih
     have hc' : Clean op l ((k2, v2) :: r) :=
       ⟨fun p hp => hc.1 p (List.mem_cons_of_mem _ hp), hc.2.1,
        fun p hp q hq => hc.2.2 p (List.mem_cons_of_mem _ hp) q hq⟩
     have := ih hc'
     simp only [List.map_cons] at this ⊢
-    simp [C04.specVals, h, this]
+    simp [C04L.specVals, h, this]
   · rename_i k1 v1 l k2 v2 r h1 h2 ih
     have hc' : Clean op ((k1, v1) :: l) r :=
       ⟨hc.1, fun p hp => hc.2.1 p (List.mem_cons_of_mem _ hp),
        fun p hp q hq => hc.2.2 p hp q (List.mem_cons_of_mem _ hq)⟩
     have := ih hc'
     simp only [List.map_cons] at this ⊢
-    simp [C04.specVals, h1, h2, this]
+    simp [C04L.specVals, h1, h2, this]
   · rename_i k1 v1 l k2 v2 r h1 h2 ih
     have hc' : Clean op l r :=
       ⟨fun p hp => hc.1 p (List.mem_cons_of_mem _ hp), fun p hp => hc.2.1 p (List.mem_cons_of_mem _ hp),
@@ -159,15 +159,15 @@ theorem specVals_map (op : Agg) (l r : List (Int × Option Int)) (hc : Clean op 
     have hcomb := combine_enc op v1 v2 (hc.1 (k1, v1) (by simp)) (hc.2.1 (k2, v2) (by simp))
       (hc.2.2 (k1, v1) (by simp) (k2, v2) (by simp) hk)
     simp only [List.map_cons] at this ⊢
-    simp [C04.specVals, h1, h2, this, hcomb]
+    simp [C04L.specVals, h1, h2, this, hcomb]
 
 theorem combineAgg_enc (op : Agg) (l r : List (Int × Option Int))
-    (hl : C04.StrictAsc (l.map (·.1))) (hr : C04.StrictAsc (r.map (·.1))) (hc : Clean op l r) :
+    (hl : C04L.StrictAsc (l.map (·.1))) (hr : C04L.StrictAsc (r.map (·.1))) (hc : Clean op l r) :
     combineAgg op (encPart l) (encPart r) = .ok (encPart (mergeX op l r)) := by
   unfold combineAgg encPart
   simp only
-  have hk := C04.C04_dedup_keys _ _ hl hr
-  have hv := C04.C04_merge_aggregate_spec op (l.map (·.1)) (r.map (·.1)) (l.map (fun p => enc p.2))
+  have hk := C04L.dedup_keys _ _ hl hr
+  have hv := C04L.merge_aggregate_spec op (l.map (·.1)) (r.map (·.1)) (l.map (fun p => enc p.2))
     (r.map (fun p => enc p.2)) hl hr (by simp) (by simp)
   rw [specVals_map op l r hc] at hv
   rw [specKeys_map op l r] at hk
